@@ -18,7 +18,12 @@ Spec:   CimEq.tla   requirement: abstract object trees, four-valued AbsEq,
                     in-place change of a reachable child object on the object
                     itself with HashLawful after every step (hash equals that
                     of a freshly built equal object); two cached variants
-                    (HashCache subset / all) must fail
+                    (HashCache subset / all) must fail; read-only
+                    observations (read / render / compare / dup) of every
+                    cell are steps too: the dictionary slots are lazily
+                    initialised (cell kind "lazy"), the fresh equal object
+                    has them unread; variant LazyHash = raw (__hash__ reads
+                    the private slot) must fail
         CimEqGen.tla   TLC prints the universe, the near pairs and the
                     classes of the coarsest admissible ==
         CimEqTrace.tla TraceKit: every observed vector is judged by TLC
@@ -208,9 +213,15 @@ def run(ctx):
             "CimEqHeapHist.cfg" if quick else "CimEqHeapHistBig.cfg",
             coverage=False,
             label="heap model, histories: hash() / NocaseDict mutators / "
-            "in-place change of reachable cells, <=%d steps; hash equals the "
-            "hash of a freshly built equal object after every step" %
-            (2 if quick else 3))
+            "in-place change of reachable cells%s, <=%d steps; hash equals "
+            "the hash of a freshly built equal object after every step" %
+            ((" / read-only observations", 2) if quick else ("", 3)))
+    if not quick:
+        # the 3-step configuration runs without the observation actions
+        # (state space); observations are exhaustive for <= 2 steps
+        ctx.tlc("CimEqHeap", jvm=JVM, cfg="CimEqHeapHist.cfg", coverage=False,
+                label="heap model, histories incl. read-only observations "
+                "of every cell, <=2 steps: HashLawful, ObsReadOnly")
     check_regression(ctx, "CimEqHeap", "CimEqHeapRegCacheSubset.cfg",
                      ("HashLawful",),
                      "hash value cached in NocaseDict, dropped only in "
